@@ -408,7 +408,13 @@ class Effects(object):
     if isinstance(s, ast.Assert):
       _, r = self.ev(s.test, env, fn)
       R.extend(r)
-      R.append(Raised('AssertionError', fn, s, 'assert on wire-derived data'))
+      et, ef = dict(env), dict(env)
+      self.refine(s.test, et, ef)
+      if not ef.get('__dead__'):        # the kinds do not already guarantee the asserted fact
+        R.append(Raised('AssertionError', fn, s, 'assert on wire-derived data'))
+      for k_, v_ in et.items():
+        if k_ != '__dead__':
+          env[k_] = v_
       return R, True
     if isinstance(s, ast.Delete):
       return R, True
@@ -480,8 +486,17 @@ class Effects(object):
         no[v] = cur.k
       elif cur == 'NONE':
         no['__dead__'] = True
-      elif isinstance(cur, tuple) or cur in ('WS', 'WB', 'WSB', 'F?', 'FF', 'INT', 'N?', 'WSL', 'WBL', 'WOL', 'C:T', 'C:F'):
+      elif isinstance(cur, tuple) or cur in ('WS', 'WB', 'WSB', 'F?', 'FF', 'INT', 'N?', 'WSL', 'WBL', 'WOL', 'C:T', 'C:F', 'TS'):
         yes['__dead__'] = True          # a value of a known non-None kind
+      return
+    if isinstance(t, ast.Compare) and len(t.ops) == 1 and isinstance(t.ops[0], (ast.Is, ast.IsNot)) and \
+       isinstance(t.left, ast.Name) and isinstance(t.comparators[0], ast.Name) and \
+       e_true.get(t.comparators[0].id, e_false.get(t.comparators[0].id)) is None and t.comparators[0].id.isupper():
+      # `x is _SENTINEL` with a module-level (upper-case) sentinel: a str / bytes / number is never the sentinel
+      cur = e_true.get(t.left.id, e_false.get(t.left.id))
+      if cur in ('WS', 'WB', 'WSB', 'F?', 'FF', 'INT', 'N?', 'TS'):
+        is_true = isinstance(t.ops[0], ast.Is) != neg
+        (e_true if is_true else e_false)['__dead__'] = True
       return
     if isinstance(t, ast.Name) and e_true.get(t.id, e_false.get(t.id)) in ('C:T', 'C:F', 'NONE'):
       cur = e_true.get(t.id, e_false.get(t.id))
@@ -524,6 +539,17 @@ class Effects(object):
       names = [unparse(e) for e in ty.elts] if isinstance(ty, ast.Tuple) else [unparse(ty)]
       yes, no = (e_false, e_true) if neg else (e_true, e_false)
       cur = yes.get(v, e_true.get(v, e_false.get(v)))
+      STR = {'str', 'six.text_type', 'unicode', 'basestring', 'six.string_types'}
+      # a value whose kind already says what it is: the other outcome cannot happen
+      if cur == 'WS' and set(names) <= STR:
+        no['__dead__'] = True
+        return
+      if cur == 'WB' and set(names) <= {'bytes'}:
+        no['__dead__'] = True
+        return
+      if cur in ('F?', 'FF') and set(names) <= {'float'}:
+        no['__dead__'] = True
+        return
       if cur in ('WO', 'WS', 'WB', None):
         if set(names) <= {'str', 'six.text_type', 'unicode', 'basestring', 'six.string_types'}:
           if cur == 'WO':
